@@ -33,7 +33,7 @@ Dom == [
   \* a.proto (proto3, package acme.v1), message M
   a_type |-> Scalars, a_name |-> <<"a", "a_renamed">>, a_json |-> <<"default", "custom">>,
   n_type |-> <<"msg:M.N", "msg:M.N2", "string", "enum:M.K">>,
-  k_type |-> <<"enum:M.K", "enum:KWide.K", "enum:E", "int32">>,
+  k_type |-> <<"enum:M.K", "enum:KWide.K", "enum:E", "int32", "enum:KSwap.K">>,
   mp_val |-> <<"int32", "int64", "string", "sint32">>,
   c_oneof |-> <<"o", "none", "o2">>,
   ph_state |-> <<"oneof", "plain">>,
@@ -93,7 +93,7 @@ Compatible(p, c) == \A s \in Slots : CompatStep(s, p[s], c[s])
 
 \* ------------------------------------------------------------------ documented compatibility groups
 IsMsg(t) == t \in {"msg:M.N", "msg:M.N2"}
-IsEnum(t) == t \in {"enum:M.K", "enum:KWide.K", "enum:E"}
+IsEnum(t) == t \in {"enum:M.K", "enum:KWide.K", "enum:E", "enum:KSwap.K"}
 WireGroup(t) == IF IsMsg(t) THEN 10 ELSE IF IsEnum(t) THEN 11 ELSE
   CASE t \in {"int32", "int64", "uint32", "uint64", "bool"} -> 1 [] t \in {"sint32", "sint64"} -> 2
     [] t = "string" -> 3 [] t = "bytes" -> 4 [] t \in {"fixed32", "sfixed32"} -> 5 [] t \in {"fixed64", "sfixed64"} -> 6
@@ -103,8 +103,12 @@ WireJsonGroup(t) == IF IsMsg(t) THEN 13 ELSE IF IsEnum(t) THEN 14 ELSE
     [] t \in {"fixed64", "sfixed64"} -> 4 [] t = "bool" -> 5 [] t = "sint32" -> 6 [] t = "sint64" -> 7
     [] t = "string" -> 8 [] t = "bytes" -> 9 [] t = "double" -> 10 [] t = "float" -> 11
 EnumShort(t) == IF t = "enum:E" THEN "E" ELSE "K"
-EnumVals(t) == IF t = "enum:KWide.K" THEN {0, 1, 2} ELSE {0, 1}   \* only compared between the two enums named K
-\* an enum may be swapped for a namesake that has at least the same values
+\* (name, number) bindings; only compared between the enums named K.  KSwap.K has every name and every number of the
+\* other two, but K_ONE and K_TWO are bound the other way round: a subset by names and by numbers, not by values
+EnumVals(t) == CASE t = "enum:KWide.K" -> {<<"K_UNSPECIFIED", 0>>, <<"K_ONE", 1>>, <<"K_TWO", 2>>}
+                 [] t = "enum:KSwap.K" -> {<<"K_UNSPECIFIED", 0>>, <<"K_ONE", 2>>, <<"K_TWO", 1>>}
+                 [] OTHER -> {<<"K_UNSPECIFIED", 0>>, <<"K_ONE", 1>>}
+\* an enum may be swapped for a namesake that has at least the same values (same name bound to the same number)
 EnumCompatible(t1, t2) == EnumShort(t1) = EnumShort(t2) /\ EnumVals(t1) \subseteq EnumVals(t2)
 WireBreaks(t1, t2) == t1 # t2 /\ IF WireGroup(t1) # WireGroup(t2) THEN ~(t1 = "string" /\ t2 = "bytes")
                       ELSE IF IsEnum(t1) THEN ~EnumCompatible(t1, t2) ELSE IsMsg(t1)
@@ -309,7 +313,7 @@ CompatibleExpectsNothing == \A i \in 1..Len(hist) : Compatible(hist[i], Last) =>
 \* every expected rule exists in the newest configuration version
 ExpectedRulesExist == \A i \in 1..Len(hist) : \A e \in Expected(hist[i], Last) : CatsOf("v2", e.rule) # {}
 \* the documented tables are nested: what WIRE reports for a type change, WIRE_JSON reports, and FILE reports everything
-TablesNested == \A t1, t2 \in {Scalars[i] : i \in 1..Len(Scalars)} \cup {"msg:M.N", "msg:M.N2", "enum:M.K", "enum:KWide.K", "enum:E"} :
+TablesNested == \A t1, t2 \in {Scalars[i] : i \in 1..Len(Scalars)} \cup {"msg:M.N", "msg:M.N2", "enum:M.K", "enum:KWide.K", "enum:E", "enum:KSwap.K"} :
                    (WireBreaks(t1, t2) => WireJsonBreaks(t1, t2)) /\ (WireJsonBreaks(t1, t2) => t1 # t2)
 \* category nesting of the membership tables for the rules that replace each other
 CategoryNesting == \A v \in {"v1beta1", "v1", "v2"} :
